@@ -350,6 +350,18 @@ fn indicators_block(thorough: bool) -> (VioSink, Tally) {
 						alt.push(ks[[1, 2, 4, 5, 0, 3][i % 6]]);
 					}
 					ss.push(alt);
+					// zigzag on a steady trend: hundreds of swing highs / lows on one side of every slow average
+					// (peak and trend-length counters of every width have to survive them)
+					for (start, up, down) in [(0.0, 2.0, -1.0), (2000.0, -2.0, 1.0)] {
+						let sh = |c: &Candle, d: f64| Candle { open: c.open + d as ValueType, high: c.high + d as ValueType, low: c.low + d as ValueType, close: c.close + d as ValueType, volume: c.volume };
+						let mut z = vec![];
+						let mut off = start;
+						for i in 0..(if thorough && what == "default" { 70_000 } else { 1400 }) {
+							z.push(sh(&ks[1], off));
+							off += if i % 2 == 0 { up } else { down };
+						}
+						ss.push(z);
+					}
 					drop(inst);
 					for s in &ss {
 						let Ok(mut i) = c.init(&ks[1]) else { break };
